@@ -46,6 +46,16 @@ theorem conv_samples_match_model :
     Gen.RoutingSamples.samples.all (fun (c, re, w, pi) => c.regexText == re && c.weight == w && c.partIsolating == pi) = true := by
   decide +kernel
 
+/-- **part_anchor_matches_model.** The live compiled part regexes of `Rule('/<conv:v>' + post)` (from
+`_parse_rule`, for every sample converter, with and without a literal suffix) are anchored at the very
+end exactly as the model's `matchDyn` is: on a valid value they match; with LF / CR / VT appended,
+LF inserted or LF in front they match exactly when the model says so — in particular a trailing
+newline is never swallowed by the anchor (`\Z`, not `$`). -/
+theorem part_anchor_matches_model :
+    Gen.RoutingSamples.anchorProbes.all (fun (c, post, target, live) =>
+      (matchDyn [] c.kind post.toList false target.toList).isSome == live) = true := by
+  decide +kernel
+
 /-- `.` (the path converter's `.*?`) rejects exactly LF in the live `re`. -/
 theorem dot_rejects_lf : Gen.Routing.dotRejects = [10] := by decide
 
@@ -485,6 +495,29 @@ theorem narrow_beats_broad (pre : List Part) (c1 c2 : Conv) (hw : c1.weight < c2
     simp only [List.nil_append, specLt, this, if_false, partLt, weighting_lt_same_statics, decide_eq_true_eq]
     omega
   | cons x xs ih => simp [specLt, ih]
+
+def specsF03d : List RuleSpec :=
+  [ { toks := [.slash, .var .path "p".toList, .slash, .lit "edit".toList], endpoint := "p".toList },
+    { toks := [.slash, .var (.string 1 none none) "s".toList, .slash, .lit "edit".toList], endpoint := "s".toList },
+    { toks := [.slash, .var (.int 0 false none none) "i".toList, .slash, .lit "edit".toList], endpoint := "i".toList } ]
+
+/-- **F03d (witness).** `narrow_beats_broad` needs "the same literal decoration": literal text after a
+path converter belongs to the same slash-consuming part and counts as a static weight, so on the
+unchanged code `Rule('/<path:p>/edit')` is returned for `/12/edit` although `Rule('/<string:s>/edit')`
+and `Rule('/<int:i>/edit')` admit it directly — against the documented "int/float before string
+before path". `match_priority` is about the Weighting order the code implements, under which the path
+part (one static weight) is the lightest. -/
+theorem path_with_literal_tail_beats_narrower :
+    (match mkMap {} specsF03d with
+     | some m =>
+       (match matchAdapter m adapter0 "/12/edit".toList none .none none with
+        | .matched r vals => r.idx == 0 && vals == [("p".toList, Value.str "12".toList)]
+        | _ => false) &&
+       m.rules.all (fun r' => admitsDirect r' (reqOf adapter0 none none) (domainPartOf m.cfg adapter0) (pathPart "/12/edit".toList)) &&
+       (match m.rules with
+        | [rp, rs, ri] => specLt rp.parts rs.parts && specLt rp.parts ri.parts
+        | _ => false)
+     | none => false) = true := by decide +kernel
 
 /-- the class order used by `narrow_beats_broad`, from the model's table (tied to the live one above) -/
 theorem conv_weight_order (fx : Nat) (sg sg' : Bool) (mn mx : Option Int) (fmn fmx : Option Dec)
